@@ -287,7 +287,7 @@ def c17_run(pid, tier, seed):
                S("dw2-" + b, "dw", 2, reps=1), S("uw2-" + b, "uw", 2, reps=1),
                S("dn2f-" + b, "dn", 2, ops=fo("dn"), forces=F, maxcopies=2, reps=1),
                S("un2f-" + b, "un", 2, ops=fo("un"), forces=F, maxcopies=2, reps=1),
-               S("um2f-" + b, "um", 2, ops=fo("um"), mults=(1, 2), maxmult=4, forces=F, maxcopies=2, reps=1),
+               S("um2f-" + b, "um", 2, ops=fo("um"), mults=(1, 2), maxmult=3, forces=F, maxcopies=2, reps=1),
                S("dw2f-" + b, "dw", 2, ops=fo("dw"), forces=F, maxcopies=2, reps=1)]
         for s in out:
             s.trace = {"histories": 3 if q else 30, "steps": 120, "nmax": 6, "families": None}
